@@ -66,6 +66,17 @@ def cases(rng, tier):
             yield Case([line], {"kind": kind}, nontrivial=int(line.split(" ")[6]) <= len(s))
         if rng.random() < 0.1:
             yield Case([call(s, rng, force_bad=True)], {"kind": "bad-type"})
+    # every short fragment of the valid names / of ways to write the list of valid names is NOT a valid type
+    bad = set()
+    for base in ["WF, LC, LZW", "WF,LC,LZW", "WFLCLZW", "('WF', 'LC', 'LZW')", "WF LC LZW", "WF|LC|LZW", "wf, lc, lzw"]:
+        for i in range(len(base) + 1):
+            for j in range(i, min(len(base), i + 4) + 1):
+                t = base[i:j]
+                if t.upper() not in ("WF", "LC", "LZW"):
+                    bad.add(t)
+    bad |= {"LC, LZW", "WF, LC", "WF, LC, LZW", "None", "0"}
+    for t in sorted(bad):
+        yield Case(["q cplx KEGGKEAAAASTKEGG h:%s 20 - 5 1 3" % hex6(t)], {"kind": "bad-type-fragment"})
     # lower-case type names are accepted (upper-cased by the API)
     yield Case(["q cplx KEGGKEAAAA WF 20 - 5 1 3"], {"kind": "basic"})
 
@@ -75,6 +86,8 @@ def judge(case, reals, gens, specs):
     r, g, s = reals[0], gens[0], specs[0]
     line = case.block[0].split(" ")
     seq, typ, w, st = line[2], line[3], int(line[6]), int(line[7])
+    if typ.startswith("h:"):
+        typ = "<" + typ + ">"
     N = len(seq)
     if not core.match(r, s)[0]:
         out.append(("violation", 0, "%s: real=%s spec=%s" % (case.block[0], str(r)[:200], s[:200])))
